@@ -93,7 +93,8 @@ class Check:
         # probes of the known findings ride along
         bs = drivers.batches(jobs, parallel)
         res = drivers.run_harness(exe, bs, os.path.join(self.scratch, "tr"), prefix, parallel=parallel, env=env)
-        for tf, rc, err in res:
+        for tf, rc, err, ncrash in res:
+            self.stats["crashes"] = self.stats.get("crashes", 0) + ncrash
             if rc != 0:
                 raise Infra("harness exited with %s: %s" % (rc, err[-1500:]))
         out = tlc.validate_traces(module, [r[0] for r in res], self.scratch, parallel=parallel)
@@ -118,7 +119,7 @@ class Check:
             with open(res[0][0]) as f:
                 lines = [next(f, None) for _ in range(8)]
             self.samples.append({"trace_head": [json.loads(l) for l in lines if l][:6]})
-        for tf, _, _ in res:
+        for tf, _, _, _ in res:
             try:
                 os.remove(tf)
             except OSError:
